@@ -115,7 +115,21 @@ def main(tier, seed, replay=None):
     for i, c in enumerate(cases):
         data = c.get("data_run", c["data"])
         try:
-            conforms, rg, text = pyshacl.validate(data, shacl_graph=c["sg"], **c["opts"])
+            try:
+                conforms, rg, text = pyshacl.validate(data, shacl_graph=c["sg"], **c["opts"])
+            except Exception as e0:
+                # sparql_mode runs the target query through rdflib's engine; rdflib's MulPath.eval treats the terms
+                # 0 / false / "" as unbound (listed under C07: C07-rdflib-mulpath-truthiness) and can end in its own
+                # AssertionError. That is C07's matter, not a report-shape question: when the exception disappears
+                # with that one rdflib function corrected, the report of the corrected run is what is checked here.
+                if not c["opts"].get("sparql_mode") or not enc.exn_name(e0).startswith("RAW:"):
+                    raise
+                from .c07 import rdflib_mulpath_patched
+                with rdflib_mulpath_patched() as pt:
+                    if not pt.applied:
+                        raise
+                    conforms, rg, text = pyshacl.validate(data, shacl_graph=c["sg"], **c["opts"])
+                stats["rdflib_mulpath_engine_errors_rerun"] = stats.get("rdflib_mulpath_engine_errors_rerun", 0) + 1
         except Exception as e:
             errs += 1
             stats["failures"] += 1
